@@ -454,6 +454,39 @@ class VecEval:
             if isinstance(v, list):
                 return Gather(v)
             raise Unsupported('take of a non-vector')
+        if isinstance(e.func, ast.Attribute) and short == 'astype' and e.args and not (isinstance(e.func.value, ast.Name) and e.func.value.id in ('np', 'numpy')):
+            tname = ast.unparse(e.args[0]).strip("'\"")
+            if tname.split('.')[-1] in ('int64', 'int', 'intp', 'int32', 'uint64', 'uint32', 'int_', 'i8'):
+                def _to_int(a, b):
+                    # float -> integer conversion truncates toward zero; NaN and the infinities give the most negative integer (x86 / numpy behaviour, seed S13)
+                    if isinstance(a, float):
+                        if a != a or a in (float('inf'), float('-inf')):
+                            return -2 ** 63
+                        return int(a)
+                    return a
+                return _ew(_to_int, self.expr(e.func.value), 0)
+        if fn in ('np.nan_to_num', 'numpy.nan_to_num') and e.args:
+            def _n2n(a, b):
+                if isinstance(a, float) and a != a:
+                    return 0.0
+                if a == float('inf'):
+                    return 1.7976931348623157e308
+                if a == float('-inf'):
+                    return -1.7976931348623157e308
+                return a
+            return _ew(_n2n, self.expr(e.args[0]), 0)
+        if fn in ('np.clip', 'numpy.clip') and len(e.args) == 3:
+            v_, lo_, hi_ = (self.expr(a) for a in e.args)
+            return _ew(lambda a, b: a if a != a else min(max(a, lo_), hi_), v_, 0)
+        if fn in ('np.floor', 'numpy.floor', 'math.floor', 'np.trunc') and len(e.args) == 1:
+            import math as _m
+            return _ew(lambda a, b: a if (isinstance(a, float) and (a != a or a in (float('inf'), float('-inf')))) else float(_m.floor(a) if 'floor' in fn else _m.trunc(a)), self.expr(e.args[0]), 0)
+        if fn in ('np.where', 'numpy.where') and len(e.args) == 3:
+            c_, a_, b_ = (self.expr(a) for a in e.args)
+            if isinstance(c_, list):
+                al = a_ if isinstance(a_, list) else [a_] * len(c_)
+                bl = b_ if isinstance(b_, list) else [b_] * len(c_)
+                return [x if m else y for m, x, y in zip(c_, al, bl)]
         if isinstance(e.func, ast.Attribute) and short in ('astype', 'copy', 'ravel', 'flatten', 'tolist') and not (isinstance(e.func.value, ast.Name) and e.func.value.id in ('np', 'numpy')):
             return self.expr(e.func.value)
         if isinstance(e.func, ast.Attribute) and short in ('all', 'any', 'min', 'max', 'sum') and not (isinstance(e.func.value, ast.Name) and e.func.value.id in ('np', 'numpy')):
